@@ -273,6 +273,54 @@ pub fn c14(tier: Tier) -> i32 {
     );
     eprintln!("  [C14] years ledgers: {} lists", racc.states);
     acc = Acc::merge(acc, racc);
+    // zero FEES/TAX clauses labelled with a currency: the DSL writer drops such a clause (the statement lets the label
+    // go), so the ledger as given (and its JSON, which keeps the label) and its DSL rendering must still produce the
+    // same report — also when that currency has no rate for the month (a rated month, a month beyond the tables; GBP,
+    // two rated currencies, the ISO test code XTS which never has a rate)
+    {
+        let money = |v: &str, c: &str| format!("{v} {c}");
+        let mut n_lists = 0u64;
+        for cur in ["GBP", "USD", "EUR", "XTS"] {
+            for (y, m) in [(2024, 3), (2031, 1)] {
+                let d = |day: u32| alpha::date(y, m, day);
+                let z = money("0", cur);
+                let lists: Vec<Vec<Transaction>> = vec![
+                    vec![alpha::buy(d(1), "X", "10", "10", &z), alpha::sell(d(20), "X", "4", "12", "0.5")],
+                    vec![alpha::buy(d(1), "X", "10", "10", "1"), alpha::sell(d(20), "X", "4", "12", &z)],
+                    vec![alpha::buy(d(1), "X", "10", "10", "1"), alpha::dividend(d(5), "X", "5", &z), alpha::sell(d(20), "X", "4", "12", "0")],
+                    vec![alpha::buy(d(1), "X", "10", "10", "1"), alpha::accum(d(5), "X", "10", "7", &z), alpha::sell(d(20), "X", "4", "12", "0")],
+                    vec![alpha::buy(d(1), "X", "10", "10", "1"), alpha::capret(d(5), "X", "10", "5", &z), alpha::sell(d(20), "X", "4", "12", "0")],
+                ];
+                for l in lists {
+                    n_lists += 1;
+                    acc.states += 1;
+                    acc.bump("zero-labelled-clause-lists");
+                    let dsl = transactions_to_dsl(&l);
+                    let js = serde_json::to_string(&l).unwrap_or_default();
+                    let r0 = env.calc(&l);
+                    if matches!(r0, Outcome::Report(_)) {
+                        acc.bump("zero-labelled-clause-lists-accepted");
+                    }
+                    for (name, v) in [("DSL", parse_file(&dsl).ok()), ("JSON", serde_json::from_str::<Vec<Transaction>>(&js).ok())] {
+                        let Some(v) = v else { continue };
+                        acc.validated += 1;
+                        acc.bump("report-equality-compared");
+                        let cx = json!({"profile": "zero-labelled clauses", "variant": format!("zero clause in {cur}, {y}-{m:02}")});
+                        match (&r0, env.calc(&v)) {
+                            (Outcome::Report(a0), Outcome::Report(b0)) => {
+                                for df in view::diff_reports(&view::view(&b0), &view::view(a0), Level::L3, &CmpOpts::default()) {
+                                    acc.violation(&ctxr.findings, "C14", Violation { clause: "report-differs-after-roundtrip".into(), input: Input::Ledger(l.clone()), detail: format!("via {name}: {}", df.detail), context: cx.clone() });
+                                }
+                            }
+                            (Outcome::Err { .. }, Outcome::Err { .. }) => {}
+                            (a0, b0) => acc.violation(&ctxr.findings, "C14", Violation { clause: "report-differs-after-roundtrip".into(), input: Input::Ledger(l.clone()), detail: format!("via {name}: the ledger as given is {}, its {name} rendering is {}", a0.tag(), b0.tag()), context: cx.clone() }),
+                        }
+                    }
+                }
+            }
+        }
+        eprintln!("  [C14] zero-labelled clauses: {n_lists} lists");
+    }
     // front-ends on a subset: MCP parse_transactions / convert_to_dsl / calculate_report (DSL and JSON text) and the CLI
     frontends(&ctx, &mut acc, &a);
     for k in ["departures:1", "dates", "report-equality-compared", "frontend:ledgers"] {
